@@ -3,5 +3,11 @@ import sys, pathlib
 sys.path.insert(0, str(pathlib.Path(__file__).resolve().parents[1]))
 from pv import core
 from pv.translator import arith
+from pv.translator import hedge
 arith.generate(core.REPO, core.LEAN / "Pun/Gen/ArithGen.lean")
+from pv.translator import tmcmc as _tmcmc
+_tmcmc.generate(core.REPO, core.LEAN / "Pun/Gen/TmcmcGen.lean")
+from pv.translator import ks as _ks
+_ks.generate(core.REPO, core.LEAN / "Pun/Gen/KSGen.lean")
+hedge.generate(core.REPO, core.LEAN / "Pun/Gen/HedgeGen.lean")
 print("generated")
